@@ -335,6 +335,8 @@ class NetSim:
         r_delay = rcfg.get("delay") or {}
         s_raise = set(scfg.get("raise") or [])
         s_delay = scfg.get("delay") or {}
+        r_close = rcfg.get("close_at")          # the receive callback itself awaits client.close() at this invocation
+        s_close = scfg.get("close_at")
         sim = self
 
         async def on_recv(msg):
@@ -345,6 +347,9 @@ class NetSim:
             if d:
                 sim.fired["recv_cb_slow"] += 1
                 await asyncio.sleep(d)
+            if r_close is not None and i == r_close:
+                sim.fired["close_from_receive_callback"] += 1
+                await sim._run_op({"op": "close", "id": "recv-cb"})
             sim.recv_exit.append((i, sim.loop.vt))
             if i in r_raise:
                 sim.fired["recv_cb_raise"] += 1
@@ -357,6 +362,9 @@ class NetSim:
             if d:
                 sim.fired["status_cb_slow"] += 1
                 await asyncio.sleep(d)
+            if s_close is not None and i == s_close and state.name != "CLOSED":
+                sim.fired["close_from_status_callback"] += 1
+                await sim._run_op({"op": "close", "id": "status-cb"})
             if i in s_raise:
                 sim.fired["status_cb_raise"] += 1
                 raise RuntimeError("sim: status callback failed")
